@@ -1215,7 +1215,7 @@ theorem finish_accOf (has : Char → Bool) (t : DateTime) (hv : t.valid = true) 
   have hval : (restrictBy has t).valid = true := by
     cases hH : has 'H' <;> cases hM : has 'M' <;> cases hS : has 'S' <;>
       simp [restrictBy, DateTime.valid, hvd, hH, hM, hS] <;> omega
-  simp only [finish, accOf, hY, hm, hd, if_true, Option.isNone_some, Bool.false_and, hvd]
+  simp only [finish, yearOf, leapFixOf, ymdOf, accOf, hY, hm, hd, if_true, Option.isNone_some, Bool.false_and, hvd, checked]
   simp only [restrictBy] at hval ⊢
   simp [hval]
 
@@ -1249,5 +1249,397 @@ theorem strptime_of_items {T : Tables} (hT : TablesOk T) (fmt : Str) (items : Li
   have hres : restrictBy (fun c => false || (groupNames items).contains c) t = restrict (groupNames items) t := by
     simp [restrictBy, restrict]
   simp only [strptime, hc, hmatch, convert, hconv, hfin, hres, ne_eq, not_true_eq_false, if_false]
+
+/-! ### what `strptime` returns is a date; what it accepts is in the format's language -/
+
+theorem checked_ok (x t : DateTime) (h : checked x = .ok t) : t.valid = true := by
+  unfold checked at h
+  split at h
+  · cases h; assumption
+  · cases h
+
+theorem finish_valid (a : Acc) (t : DateTime) (h : finish a = .ok t) : t.valid = true := by
+  unfold finish at h
+  split at h
+  · cases h
+  · exact checked_ok _ _ h
+
+theorem strptime_ok_parts {T : Tables} {fmt s : Str} {t : DateTime} (h : strptime T fmt s = .ok t) :
+    ∃ items caps a, compile fmt = .ok items ∧ matchItems T items s = some (caps, []) ∧ convert T caps = .ok a ∧
+      finish a = .ok t := by
+  unfold strptime at h
+  split at h
+  · cases h
+  · rename_i items hc
+    split at h
+    · cases h
+    · rename_i caps rest hm
+      split at h
+      · cases h
+      · rename_i hrest
+        split at h
+        · cases h
+        · rename_i a ha
+          have : rest = [] := by simpa using hrest
+          subst this
+          exact ⟨items, caps, a, hc, hm, ha, h⟩
+
+/-! ### white space around the date, and the token `parse_generic_csv` cuts out -/
+
+open TallyVerif.Csv (strip lstrip rstrip firstToken dateToken)
+
+def NoSpace (s : Str) : Prop := ∀ c ∈ s, isPySpace c = false
+
+theorem lstrip_spaces_append (pre s : Str) (hpre : pre.all isPySpace = true) : lstrip (pre ++ s) = lstrip s := by
+  induction pre with
+  | nil => rfl
+  | cons c r ih =>
+    simp only [List.all_cons, Bool.and_eq_true] at hpre
+    simp only [lstrip, List.cons_append, List.dropWhile_cons, hpre.1, if_true]
+    exact ih hpre.2
+
+theorem rstrip_append_spaces (s post : Str) (hpost : post.all isPySpace = true) : rstrip (s ++ post) = rstrip s := by
+  unfold rstrip
+  rw [List.reverse_append]
+  have : ∀ (a b : Str), a.all isPySpace = true → (a ++ b).dropWhile isPySpace = b.dropWhile isPySpace := by
+    intro a b ha
+    induction a with
+    | nil => rfl
+    | cons c r ih =>
+      simp only [List.all_cons, Bool.and_eq_true] at ha
+      simp only [List.cons_append, List.dropWhile_cons, ha.1, if_true]
+      exact ih ha.2
+  rw [this _ _ (by simpa using hpost)]
+
+theorem rstrip_of_last (s : Str) (h : ∀ c, s.getLast? = some c → isPySpace c = false) : rstrip s = s := by
+  rcases List.eq_nil_or_concat s with rfl | ⟨r, c, rfl⟩
+  · rfl
+  · simpa [List.concat_eq_append] using Csv.rstrip_concat_of_not_space r (h c (by simp))
+
+theorem lstrip_all_space (s : Str) (h : s.all isPySpace = true) : lstrip s = [] := by
+  induction s with
+  | nil => rfl
+  | cons c r ih =>
+    simp only [List.all_cons, Bool.and_eq_true] at h
+    simp only [lstrip, List.dropWhile_cons, h.1, if_true]; exact ih h.2
+
+/-- the date format contains a blank: the whole cell, stripped, is handed to `strptime` -/
+theorem dateToken_whole (spec : Csv.Spec) (pre tok post : Str) (hfmt : spec.dateFormat.contains ' ' = true)
+    (hhead : ∀ c, tok.head? = some c → isPySpace c = false) (hlast : ∀ c, tok.getLast? = some c → isPySpace c = false)
+    (hpre : pre.all isPySpace = true) (hpost : post.all isPySpace = true) :
+    dateToken spec (strip (pre ++ tok ++ post)) = some tok := by
+  have h1 : strip (pre ++ tok ++ post) = tok := by
+    unfold strip
+    rw [List.append_assoc, lstrip_spaces_append pre _ hpre]
+    cases tok with
+    | nil => rw [List.nil_append, lstrip_all_space post hpost]; rfl
+    | cons c r =>
+      rw [show lstrip (c :: r ++ post) = c :: r ++ post from Csv.lstrip_cons_of_not_space _ (hhead c rfl)]
+      rw [rstrip_append_spaces _ _ hpost, rstrip_of_last _ hlast]
+  unfold dateToken
+  rw [if_pos hfmt, h1]
+
+theorem dropWhile_append_all (p : Char → Bool) (x y : Str) (h : x.all p = true) :
+    (x ++ y).dropWhile p = y.dropWhile p := by
+  induction x with
+  | nil => rfl
+  | cons c r ih =>
+    simp only [List.all_cons, Bool.and_eq_true] at h
+    simp only [List.cons_append, List.dropWhile_cons, h.1, if_true]; exact ih h.2
+
+theorem dropWhile_append_not_all (p : Char → Bool) (x y : Str) (h : x.all p = false) :
+    (x ++ y).dropWhile p = x.dropWhile p ++ y := by
+  induction x with
+  | nil => simp at h
+  | cons c r ih =>
+    simp only [List.cons_append, List.dropWhile_cons]
+    by_cases hc : p c = true
+    · simp only [hc, if_true]
+      exact ih (by simpa [hc] using h)
+    · simp [hc]
+
+/-- trailing white space is removed from what follows a text that does not end in white space -/
+theorem rstrip_append_of_last (a b : Str) (ha : a ≠ []) (hlast : ∀ c, a.getLast? = some c → isPySpace c = false) :
+    rstrip (a ++ b) = a ++ rstrip b := by
+  have hra : a.reverse.dropWhile isPySpace = a.reverse := by
+    rcases List.eq_nil_or_concat a with rfl | ⟨r, c, rfl⟩
+    · exact absurd rfl ha
+    · have := hlast c (by simp)
+      simp [this]
+  unfold rstrip
+  rw [List.reverse_append]
+  cases hb : b.reverse.all isPySpace with
+  | true =>
+    rw [dropWhile_append_all _ _ _ hb, hra]
+    have : b.reverse.dropWhile isPySpace = [] := by
+      have := dropWhile_append_all isPySpace b.reverse [] hb
+      simpa using this
+    rw [this]; simp
+  | false =>
+    rw [dropWhile_append_not_all _ _ _ hb]; simp
+
+theorem rstrip_prefix (s : Str) : rstrip s <+: s := by
+  unfold rstrip
+  have := List.dropWhile_suffix isPySpace (l := s.reverse)
+  have h2 := List.reverse_prefix.mpr this
+  simpa using h2
+
+/-- the date format contains no blank: the first white-space separated token of the cell is handed to `strptime` - blanks
+around the date and a trailing token (a weekday, a time …) are cut off -/
+theorem dateToken_first (spec : Csv.Spec) (pre tok post : Str) (hfmt : spec.dateFormat.contains ' ' = false)
+    (hne : tok ≠ []) (htok : NoSpace tok) (hpre : pre.all isPySpace = true)
+    (hpost : post = [] ∨ ∃ c r, post = c :: r ∧ isPySpace c = true) :
+    dateToken spec (strip (pre ++ tok ++ post)) = some tok := by
+  obtain ⟨c0, r0, rfl⟩ := List.exists_cons_of_ne_nil hne
+  have hc0 : isPySpace c0 = false := htok c0 (by simp)
+  have hlast : ∀ c, (c0 :: r0).getLast? = some c → isPySpace c = false := by
+    intro c hc; exact htok c (List.mem_of_getLast? hc)
+  -- the stripped cell is the token followed by nothing or by something that begins with white space
+  have hs : strip (pre ++ (c0 :: r0) ++ post) = (c0 :: r0) ++ rstrip post := by
+    unfold strip
+    rw [List.append_assoc, lstrip_spaces_append pre _ hpre,
+      show lstrip (c0 :: r0 ++ post) = c0 :: r0 ++ post from Csv.lstrip_cons_of_not_space _ hc0,
+      rstrip_append_of_last _ _ hne hlast]
+  have hp : rstrip post = [] ∨ ∃ c r, rstrip post = c :: r ∧ isPySpace c = true := by
+    cases hr : rstrip post with
+    | nil => exact Or.inl rfl
+    | cons c r =>
+      right
+      obtain ⟨suf, hsuf⟩ := rstrip_prefix post
+      rw [hr] at hsuf
+      rcases hpost with rfl | ⟨c', r', rfl, hc'⟩
+      · simp at hsuf
+      · simp only [List.cons_append, List.cons.injEq] at hsuf
+        exact ⟨c, r, rfl, by rw [hsuf.1]; exact hc'⟩
+  have hft : firstToken ((c0 :: r0) ++ rstrip post) = some (c0 :: r0) := by
+    unfold firstToken
+    rw [show lstrip (c0 :: r0 ++ rstrip post) = c0 :: r0 ++ rstrip post from Csv.lstrip_cons_of_not_space _ hc0]
+    simp only [List.cons_append, Option.some.injEq]
+    have : ∀ (a b : Str), NoSpace a → (b = [] ∨ ∃ c r, b = c :: r ∧ isPySpace c = true) →
+        (a ++ b).takeWhile (fun c => !isPySpace c) = a := by
+      intro a b ha hb
+      induction a with
+      | nil =>
+        rcases hb with rfl | ⟨c, r, rfl, hc⟩
+        · rfl
+        · simp [hc]
+      | cons x xs ih =>
+        have hx : isPySpace x = false := ha x (by simp)
+        simp only [List.cons_append, List.takeWhile_cons, hx, Bool.not_false, if_true]
+        rw [ih (fun c hc => ha c (by simp [hc]))]
+    exact this (c0 :: r0) (rstrip post) htok hp
+  unfold dateToken
+  rw [if_neg (by rw [hfmt]; exact Bool.false_ne_true), hs]
+  exact hft
+
+/-! ### the written text has no white space of its own (apart from the format's white-space runs) -/
+
+theorem num2_no_space (sp : Spell) (n : Nat) : NoSpace (num2 sp n) := by
+  intro c hc
+  unfold num2 at hc
+  split at hc
+  · rename_i h; simp at hc; subst hc; exact digitChar_not_space h.2
+  · simp [pad2] at hc; rcases hc with rfl | rfl <;> exact digitChar_not_space (by omega)
+
+theorem piece_no_space {T : Tables} (sp : Spell) (t : DateTime) (k : Char) (alts : List (List CC)) (next : List Item)
+    (ht : FieldsOk t) (hk : renderable k = true) (hs : spellOk T sp t (.group k alts) next = true) :
+    NoSpace (renderGroup sp t k) := by
+  have hname : ∀ w name, nameOk w name = true → NoSpace w := by
+    intro w name h c hc
+    simp only [nameOk, Bool.and_eq_true] at h
+    have := (List.all_eq_true.mp h.1.2) c hc
+    simp only [Bool.and_eq_true, Bool.not_eq_true'] at this
+    exact this.1.2
+  rcases renderable_cases hk with rfl | rfl | rfl | rfl | rfl | rfl | rfl | rfl | rfl
+  · intro c hc; simp [renderGroup, pad4] at hc
+    rcases hc with rfl | rfl | rfl | rfl <;> exact digitChar_not_space (by omega)
+  · intro c hc; simp [renderGroup, pad2] at hc
+    rcases hc with rfl | rfl <;> exact digitChar_not_space (by omega)
+  · simpa [renderGroup] using num2_no_space sp t.month
+  · simpa [renderGroup] using num2_no_space sp t.day
+  · have := hname _ _ ((month_word_ok sp t ht alts next).1 hs); simpa [renderGroup] using this
+  · have := hname _ _ ((month_word_ok sp t ht alts next).2 hs); simpa [renderGroup] using this
+  · simpa [renderGroup] using num2_no_space sp t.hour
+  · simpa [renderGroup] using num2_no_space sp t.minute
+  · simpa [renderGroup] using num2_no_space sp t.second
+
+theorem renderItem_no_space {T : Tables} (sp : Spell) (t : DateTime) (it : Item) (next : List Item) (ht : FieldsOk t)
+    (hsp : isSpaces it = false) (hshape : itemShape it = true) (hk : ∀ k alts, it = .group k alts → renderable k = true)
+    (hs : spellOk T sp t it next = true) : NoSpace (renderItem sp t it) := by
+  cases it with
+  | lit c => intro x hx; simp [renderItem] at hx; subst hx; simpa [itemShape] using hshape
+  | spaces run => simp [isSpaces] at hsp
+  | group k alts => exact piece_no_space sp t k alts next ht (hk k alts rfl) hs
+
+def noSpacesItems (items : List Item) : Bool := items.all fun it => !isSpaces it
+
+/-- a format without white space writes a text without white space -/
+theorem render_no_space {T : Tables} (t : DateTime) (ht : FieldsOk t) :
+    ∀ (items : List Item) (sps : List Spell), wellShaped items = true → (groupNames items).all renderable = true →
+      spellsOk T sps items t = true → noSpacesItems items = true → NoSpace (renderItems sps items t) := by
+  intro items
+  induction items with
+  | nil => intro _ _ _ _ _ c hc; simp [renderItems] at hc
+  | cons it is ih =>
+    intro sps hw hr hs hn
+    simp only [wellShaped, Bool.and_eq_true] at hw
+    simp only [spellsOk, Bool.and_eq_true] at hs
+    simp only [noSpacesItems, List.all_cons, Bool.and_eq_true, Bool.not_eq_true'] at hn
+    have hk : ∀ k alts, it = .group k alts → renderable k = true := by
+      intro k alts h; subst h
+      simp only [groupNames, List.all_cons, Bool.and_eq_true] at hr; exact hr.1
+    have h1 := renderItem_no_space (sps.headD {}) t it is ht hn.1 hw.1.1 hk hs.1
+    have h2 := ih sps.tail hw.2 (groupNames_tail_renderable hr) hs.2 (by simpa [noSpacesItems] using hn.2)
+    intro c hc
+    simp only [renderItems, List.mem_append] at hc
+    rcases hc with hc | hc
+    · exact h1 c hc
+    · exact h2 c hc
+
+def lastNotSpaces (items : List Item) : Bool :=
+  match items.getLast? with
+  | some it => !isSpaces it
+  | none => true
+
+/-- the written text does not end in white space unless the format does -/
+theorem render_last {T : Tables} (hT : TablesOk T) (t : DateTime) (ht : FieldsOk t) :
+    ∀ (items : List Item) (sps : List Spell), wellShaped items = true → (groupNames items).all renderable = true →
+      spellsOk T sps items t = true → lastNotSpaces items = true →
+      ∀ c, (renderItems sps items t).getLast? = some c → isPySpace c = false := by
+  intro items
+  induction items with
+  | nil => intro _ _ _ _ _ c hc; simp [renderItems] at hc
+  | cons it is ih =>
+    intro sps hw hr hs hl c hc
+    have hw0 := hw
+    have hs0 := hs
+    simp only [wellShaped, Bool.and_eq_true] at hw
+    simp only [spellsOk, Bool.and_eq_true] at hs
+    have hr' := groupNames_tail_renderable hr
+    cases is with
+    | nil =>
+      have hsp : isSpaces it = false := by simpa [lastNotSpaces] using hl
+      have hk : ∀ k alts, it = .group k alts → renderable k = true := by
+        intro k alts h; subst h
+        simp only [groupNames, List.all_cons, Bool.and_eq_true] at hr; exact hr.1
+      have h1 := renderItem_no_space (sps.headD {}) t it [] ht hsp hw.1.1 hk hs.1
+      simp only [renderItems, List.append_nil] at hc
+      exact h1 c (List.mem_of_getLast? hc)
+    | cons it' is' =>
+      obtain ⟨c', r', hR, -, -⟩ := render_head hT t ht it' is' sps.tail hw.2 hr' hs.2
+      have hl' : lastNotSpaces (it' :: is') = true := by simpa [lastNotSpaces] using hl
+      refine ih sps.tail hw.2 hr' hs.2 hl' c ?_
+      simp only [renderItems] at hc hR ⊢
+      rw [List.getLast?_append, hR] at hc
+      rw [hR]
+      simpa using hc
+
+/-! ### which errors can come from where -/
+
+theorem intOr_map_err {T : Tables} {v : Str} {f : Nat → Acc} {e : StrpErr} (h : (intOr T v).map f = .error e) :
+    e = .outOfRange := by
+  unfold intOr at h
+  split at h
+  · simp [Except.map] at h
+  · simp [Except.map] at h; exact h.symm
+
+theorem convertOne_err {T : Tables} {all : Caps} {a : Acc} {k : Char} {v : Str} {e : StrpErr}
+    (h : convertOne T all a k v = .error e) : e = .outOfRange ∨ e = .notInList := by
+  unfold convertOne at h
+  split at h
+  all_goals first
+    | exact Or.inl (intOr_map_err h)
+    | (split at h
+       · cases h
+       · cases h; exact Or.inr rfl)
+    | cases h
+
+theorem convertGo_err {T : Tables} {all : Caps} {e : StrpErr} :
+    ∀ (caps : Caps) (a : Acc), convertGo T all a caps = .error e → e = .outOfRange ∨ e = .notInList := by
+  intro caps
+  induction caps with
+  | nil => intro a h; cases h
+  | cons kv r ih =>
+    intro a h
+    obtain ⟨k, v⟩ := kv
+    simp only [convertGo] at h
+    split at h
+    · rename_i e' he; cases h; exact convertOne_err he
+    · exact ih _ h
+
+theorem dateOfYday_err {y j : Nat} {e : StrpErr} (h : dateOfYday y j = .error e) : e = .outOfRange := by
+  unfold dateOfYday at h
+  split at h
+  · split at h
+    · cases h
+    · cases h; rfl
+  · split at h
+    · cases h
+    · split at h
+      · cases h
+      · cases h; rfl
+
+theorem ymdOf_err {y : Nat} {a : Acc} {e : StrpErr} (h : ymdOf y a = .error e) : e = .outOfRange := by
+  unfold ymdOf at h
+  split at h
+  · split at h
+    · cases h
+    · cases h; rfl
+  · split at h
+    · exact dateOfYday_err h
+    · cases h; rfl
+
+theorem checked_err {x : DateTime} {e : StrpErr} (h : checked x = .error e) : e = .outOfRange := by
+  unfold checked at h
+  split at h
+  · cases h
+  · cases h; rfl
+
+theorem finish_err {a : Acc} {e : StrpErr} (h : finish a = .error e) : e = .outOfRange := by
+  unfold finish at h
+  split at h
+  · rename_i e' he; cases h; exact ymdOf_err he
+  · exact checked_err h
+
+/-- once the format compiles, `strptime` can only fail with a `ValueError` -/
+theorem strptime_err_of_compile_ok {T : Tables} {fmt s : Str} {items : List Item} {e : StrpErr}
+    (hc : compile fmt = .ok items) (h : strptime T fmt s = .error e) : e.toDateErr = .valueError := by
+  unfold strptime at h
+  rw [hc] at h
+  dsimp only at h
+  split at h
+  · cases h; rfl
+  · split at h
+    · cases h; rfl
+    · split at h
+      · rename_i e' he
+        cases h
+        rcases convertGo_err _ _ he with rfl | rfl <;> rfl
+      · rw [finish_err h]; rfl
+
+theorem strptime_err_of_compile_err {T : Tables} {fmt s : Str} {e : StrpErr} (hc : compile fmt = .error e) :
+    strptime T fmt s = .error e := by
+  unfold strptime; rw [hc]
+
+theorem spellsOk_nil (T : Tables) (items : List Item) (t : DateTime) : spellsOk T [] items t = true := by
+  induction items with
+  | nil => rfl
+  | cons it is ih =>
+    simp only [spellsOk, List.tail_nil, ih, Bool.and_true]
+    cases it <;> simp [spellOk]
+
+theorem asciiTables_ok : TablesOk asciiTables where
+  digit_ascii _ _ := rfl
+  ci_ascii _ _ _ _ := rfl
+  ci_refl c := by simp [asciiTables]
+  space_not_digit c h := by
+    simp only [asciiTables, Csv.digitVal?]
+    split
+    · rename_i hd
+      simp only [Bool.and_eq_true, decide_eq_true_eq] at hd
+      simp only [isPySpace, Bool.or_eq_true, Bool.and_eq_true, decide_eq_true_eq, beq_iff_eq] at h
+      omega
+    · rfl
+  lower_ascii _ _ := rfl
 
 end TallyVerif.Strptime
